@@ -44,6 +44,7 @@ WORKERS = {"quick": 16, "thorough": 16}
 WATCHDOG = {"quick": 600, "thorough": 3000}
 
 KINDS = ["select", "select", "setop", "insert", "update", "delete", "create", "drop"]
+SPECIAL_KINDS = {"update-join", "for-update-of", "update-from", "dialect-sensitive-constants", "dialect-sensitive-set"}
 
 
 def special_programs(d):
@@ -71,15 +72,35 @@ def special_programs(d):
     q = p.call(q, "set", "a", 1)
     q = p.call(q, "where", p.bin("==", p.call(t1, "field", "id"), p.call(t2, "field", "id")))
     out.append((p.prog(dialect=d, kind="update-from"), q.i))
+    # constants whose rendering depends on the dialect wrapper: tz-aware temporal values, backslashes/quotes, JSON, booleans
+    import datetime as dt
+    tz = dt.timezone(dt.timedelta(hours=2))
+    consts = [dt.time(9, 30, tzinfo=tz), dt.datetime(2021, 3, 4, 5, 6, 7, tzinfo=tz), "back\\slash 'q'", {"k": "it's \\ \"x\""}, True, [1, "a'b"]]
+    p = P()
+    t1 = p.new("Table", "t1")
+    q = p.call(p.call(Cls(d), "from_", t1), "select", p.call(t1, "field", "a"), *consts[:5])
+    q = p.call(q, "where", p.bin("==", p.call(t1, "field", "b"), consts[0]))
+    q = p.call(q, "where", p.call(p.call(t1, "field", "c"), "isin", [consts[2], "x"]))
+    out.append((p.prog(dialect=d, kind="dialect-sensitive-constants"), q.i))
+    p = P()
+    t1 = p.new("Table", "t1")
+    q = p.call(Cls(d), "update", t1)
+    for i, c in enumerate(consts):
+        q = p.call(q, "set", p.call(t1, "field", "c%d" % i), c)
+    q = p.call(q, "where", p.bin("==", p.call(t1, "field", "id"), consts[1]))
+    out.append((p.prog(dialect=d, kind="dialect-sensitive-set"), q.i))
     return out
 
 
 def corpus(tier, seed, shard, nshards):
     """Deterministic list of (program, target var) for this shard."""
     out = []
-    if shard == 0:
-        for d in DIALECT_CLASSES:
-            out.extend(special_programs(d))
+    k = 0
+    for d in DIALECT_CLASSES:
+        for sp in special_programs(d):
+            k += 1
+            if k % nshards == shard:  # spread over the shards
+                out.append(sp)
     n = (1600 if tier == "quick" else 80000) // nshards
     rnd = random.Random("C02:%d:%d" % (seed, shard))
     for i in range(n):
@@ -101,7 +122,10 @@ def cases(tier, seed, shard, nshards):
     nthread = (64 if tier == "quick" else 1000) // nshards + 1
     for i, (prog, tgt) in enumerate(items):
         yield {"k": "hist", "prog": prog, "tgt": tgt, "h": "%d:%d:%d" % (seed, shard, i)}
-        if i < nthread or prog.get("meta", {}).get("kind") in ("update-join", "for-update-of"):
+        if prog.get("meta", {}).get("kind") in SPECIAL_KINDS:
+            for rep in range(1, 6):  # the fixed programs get several different render histories
+                yield {"k": "hist", "prog": prog, "tgt": tgt, "h": "%d:%d:%d:%d" % (seed, shard, i, rep)}
+        if i < nthread or prog.get("meta", {}).get("kind") in ("update-join", "for-update-of", "dialect-sensitive-set"):
             yield {"k": "thread", "prog": prog, "tgt": tgt, "h": "%d:%d:%d" % (seed, shard, i)}
 
 
@@ -231,7 +255,8 @@ def run_hist(case, mon):
     env2 = run(prog)
     for i in live:
         twin = env2[i]
-        fa, fb = F(env[i]), F(twin)
+        # the twin is fingerprinted in the opposite context order: render-order state (caches keyed too coarsely) shows up
+        fa, fb = F(env[i]), F(twin, reverse=True)
         mon.count("twin_fingerprint_comparisons")
         if fa != fb:
             d = fdiff(fa, fb)
